@@ -172,14 +172,53 @@ func init() {
 		if kind != "morlock" {
 			ref = histEngines()[kind](&gate{})
 		}
+		optDepth := 0
 		for _, ls := range a[i+1:] {
+			if strings.HasPrefix(ls, "h") {
+				// h<N>: the user changes the hash size (0 = off) and starts the game anew on the same position; from then on the
+				// table in use is the one just configured - with 0, none: the old one must be gone, contents and all
+				n, err := strconv.Atoi(ls[1:])
+				if err != nil {
+					continue
+				}
+				e.SetHash(uint(n))
+				if err := e.Reset(ctx, start); err != nil {
+					return "err-reset"
+				}
+				hash = n
+				continue
+			}
+			if strings.HasPrefix(ls, "o") {
+				// o<N>: the user configures the engine's own depth (what an analysis without an explicit limit searches to)
+				n, err := strconv.Atoi(ls[1:])
+				if err != nil {
+					continue
+				}
+				e.SetDepth(uint(n))
+				optDepth = n
+				continue
+			}
+			sopt := searchctl.Options{}
 			limit, err := strconv.Atoi(ls)
+			if ls == "-" {
+				// no explicit limit: the configured depth applies - whatever explicit limits earlier analyses carried
+				if optDepth == 0 {
+					continue
+				}
+				limit, err = optDepth, nil
+			} else {
+				sopt.DepthLimit = lang.Some(uint(limit))
+			}
 			if err != nil {
 				continue
 			}
-			out, err := e.Analyze(ctx, searchctl.Options{DepthLimit: lang.Some(uint(limit))})
+			optsBefore := e.Options()
+			out, err := e.Analyze(ctx, sopt)
 			if err != nil {
 				return "err-analyze"
+			}
+			if e.Options() != optsBefore {
+				return fmt.Sprintf("MISMATCH an analysis (limit %q) changed the engine's options from %v to %v", ls, optsBefore, e.Options())
 			}
 			var seen []search.PV
 			done := make(chan struct{})
@@ -209,9 +248,14 @@ func init() {
 					return fmt.Sprintf("MISMATCH analysis with depth limit %d reported depth %d after depth %d", limit, pv.Depth, lastD)
 				}
 				lastD = pv.Depth
-				_, sc, _, err := ref.Search(ctx, &search.Context{TT: search.NoTranspositionTable{}}, e.Board(), pv.Depth)
+				nodes, sc, moves, err := ref.Search(ctx, &search.Context{TT: search.NoTranspositionTable{}}, e.Board(), pv.Depth)
 				if err != nil || sc != pv.Score {
 					return fmt.Sprintf("MISMATCH limit %d: depth %d reported score %s, a direct table-free search gives %s", limit, pv.Depth, fmtScore(pv.Score), fmtScore(sc))
+				}
+				if hash == 0 && (nodes != pv.Nodes || fmt.Sprint(moves) != fmt.Sprint(pv.Moves) || pv.Hash != 0) {
+					// with the hash off the analysis IS the table-free search: same line, same work, nothing reported in use
+					return fmt.Sprintf("MISMATCH limit %d with the hash off: depth %d reported pv %v, %d nodes, table use %v; a direct table-free search gives %v, %d nodes",
+						limit, pv.Depth, pv.Moves, pv.Nodes, pv.Hash, moves, nodes)
 				}
 			}
 			// the channel keeps only the latest report, so gaps are possible; the first analysis' end is not: the limit or a mate
@@ -468,7 +512,26 @@ func init() {
 			for _, l := range lims {
 				ls = append(ls, strconv.Itoa(l))
 			}
-			line := fmt.Sprintf("published reanalyse %s %d %s ; %s", kind, []int{0, 1, 1, 2}[r.Intn(4)], start, strings.Join(ls, " "))
+			if i%2 == 1 && len(ls) > 2 {
+				// the table is switched off (and, in longer lists, on again) between two analyses
+				ls = append(ls[:2:2], append([]string{"h0"}, ls[2:]...)...)
+				if len(ls) > 4 {
+					ls = append(ls[:4:4], append([]string{"h1"}, ls[4:]...)...)
+				}
+			}
+			hs := []int{0, 1, 1, 2}[r.Intn(4)]
+			if i == 1 {
+				hs = 1
+			}
+			if i%4 == 2 || i%4 == 3 {
+				// the engine's own depth, used by analyses without an explicit limit, before and after analyses with one
+				deep := "3"
+				if kind == "turochamp" {
+					deep = "2"
+				}
+				ls = append([]string{"o2", "-"}, append(ls, "-", "o1", "-", deep, "-")...)
+			}
+			line := fmt.Sprintf("published reanalyse %s %d %s ; %s", kind, hs, start, strings.Join(ls, " "))
 			o.do(line)
 			o.Count("reanalyse:" + kind)
 			o.Nontrivial(line)
@@ -1714,6 +1777,33 @@ func init() {
 			line := fmt.Sprintf("published newgames %s %d %d %s ; %s", kind, 1+r.Intn(2), d, start, strings.Join(moves, " "))
 			o.do(line)
 			o.Count("newgames:" + kind)
+			o.Nontrivial(line)
+		}
+		// the reports of one analysis, all kept and read after it has ended: each is the search of its own depth (what was returned
+		// for depth d depends on the game and d only - not on the iterations that came after it) ...
+		kx := 5
+		if thorough {
+			kx = 120
+		}
+		for i := 0; i < kx; i++ {
+			start, moves, b := randomLine(r, 8)
+			limit := 3
+			if pieceCount(b) <= 6 {
+				limit = 4 + r.Intn(2)
+			}
+			line := fmt.Sprintf("published iterx plain %d %s ; %s", limit, start, strings.Join(moves, " "))
+			o.do(line)
+			o.Count("iterx:kept-reports")
+			o.Nontrivial(line)
+		}
+		// ... and an analysis is a function of the game and of what was asked: explicit limits of earlier analyses do not become the
+		// engine's configured depth, the options are what the user set
+		for i := 0; i < 3; i++ {
+			kind := []string{"plain", "morlock", "turochamp"}[i]
+			deep := []string{"4", "3", "2"}[i]
+			line := fmt.Sprintf("published reanalyse %s %d %s ; o2 - %s - 1 - o1 - %s -", kind, r.Intn(2), []string{fen.Initial, corpus[r.Intn(len(corpus))]}[r.Intn(2)], deep, deep)
+			o.do(line)
+			o.Count("reanalyse:configured-depth")
 			o.Nontrivial(line)
 		}
 		// an engine that analyses before every move and one that never does: the same game, through repetitions
